@@ -227,6 +227,12 @@ def run(chk):
             for sb, d in subs:
                 if len_of_item(d, lambda i: panics._strip(i) == panics._strip(idx)) and b.dominates(sb, rb):
                     ok = True
+            # or the other way round: the entry is taken out first and the length of what came out is subtracted
+            for sb, d in subs:
+                if b.dominates(rb, sb) and desc_contains(d, lambda y: y[0] == "call" and y[1].endswith("::len") and y[2] and
+                                                         desc_contains(y[2][0], lambda z: z[0] == "field" and z[2] == ix["item_data"] and
+                                                                       desc_contains(z[1], lambda w_: w_[0] == "call" and len(w_) > 3 and w_[3] == rb))):
+                    ok = True
             chk.ob("R2.pairing", C + "::set", "remove(existing) is preceded by cache_size -= data[existing].data.len()", ok,
                    "replacing an entry does not subtract the old entry's size", where=b.where(rb))
             chk.ob("R2.pairing", C + "::set", "the removed index is the one found by the key lookup", from_lookup(prog, b, ix, idx), f"{panics.short_desc(idx)}")
@@ -276,6 +282,12 @@ def run(chk):
             ops = pops + [x for x, _ in rems] + [x for x, _ in pushes]
             # the update and the queue operation may sit in one block (statement, then the call terminator)
             w = None if sb in ops else core.must_pass(b, [sb], core.return_blocks(b) + [x for x in szb if x != sb], through_nodes=ops)
+            if w is not None:
+                # the queue operation may also come first (take the entry out, then account for it): since the previous update / entry
+                w2 = core.must_pass(b, [0] + [x for x in szb if x != sb], [sb], through_nodes=ops, after_from=True) if sb != 0 else ["entry"]
+                back = core.must_pass(b, [sb], [sb], through_nodes=ops)
+                if w2 is None and back is None:
+                    w = None
             chk.ob("R2.pairing", C + "::set", "every cache_size update is followed by its queue operation before the next update / return", w is None, "", path=w, where=b.where(sb))
     # ---- get
     b = prog.bodies.get(C + "::get")
